@@ -104,6 +104,15 @@ func newModeN(p *UploadPlan, rec *upTransport) *modeN {
 				}
 			}
 			w.WriteHeader(status)
+			if p.RespBody != "" && status != 204 && status != 304 {
+				// a success with a (useless) body, sent at once; then the server
+				// neither reads the rest of the upload nor lets go of the connection
+				io.WriteString(w, "stored, thank you\n")
+				if f, ok := w.(http.Flusher); ok {
+					f.Flush()
+				}
+				<-r.Context().Done()
+			}
 		})
 	}
 	m.srv = &http.Server{Handler: h}
